@@ -146,6 +146,11 @@ type c08World struct {
 	wclosed map[int]bool
 	convN   int
 	errs    c08ErrReg
+	// arena: every array source of a case is a window of one backing array with spare capacity behind
+	// it (as slices built by append / sub-slicing are in user code).  A correct implementation never
+	// writes through a source slice, so this changes nothing for it; an implementation that appends to
+	// a source slice writes into the next window / into what sibling copies read.
+	arena []int
 }
 
 func c08NewWorld() *c08World {
@@ -200,7 +205,16 @@ func (w *c08World) exec(op *c08Op) (made []*schema.StreamReader[int], status str
 		}
 	case "arr":
 		run = func() {
-			made = []*schema.StreamReader[int]{schema.StreamReaderFromArray(append([]int{}, op.Items...))}
+			if w.arena == nil {
+				w.arena = make([]int, 0, 256)
+			}
+			if len(w.arena)+len(op.Items) > cap(w.arena) {
+				made = []*schema.StreamReader[int]{schema.StreamReaderFromArray(append(make([]int, 0, len(op.Items)+8), op.Items...))}
+			} else {
+				start := len(w.arena)
+				w.arena = append(w.arena, op.Items...)
+				made = []*schema.StreamReader[int]{schema.StreamReaderFromArray(w.arena[start:len(w.arena)])} // cap reaches into the next window
+			}
 		}
 	case "conv":
 		run = func() {
@@ -357,17 +371,17 @@ func c08Obs(op c08Op) any {
 // ---- one sequential case ----
 
 type c08Seq struct {
-	ctx   *vh.Ctx
-	w     *c08World
-	c     *c08Case
-	st    *c08Reply // model state after c.Ops
-	nCons int
-	seq   map[int]int // per pipe: items sent so far
-	stats map[string]int
-	bad   bool
-	enc   []byte // JSON of c.Ops without the closing bracket
-	sigs  map[int]map[string]bool // per reader: the source paths its values come along
-	fwd   map[int]bool            // per reader: a forwarding goroutine (merged convert / copy child) is below it
+	ctx          *vh.Ctx
+	w            *c08World
+	c            *c08Case
+	st           *c08Reply // model state after c.Ops
+	nCons        int
+	seq          map[int]int // per pipe: items sent so far
+	stats        map[string]int
+	bad          bool
+	enc          []byte                  // JSON of c.Ops without the closing bracket
+	sigs         map[int]map[string]bool // per reader: the source paths its values come along
+	fwd          map[int]bool            // per reader: a forwarding goroutine (merged convert / copy child) is below it
 	inconclusive bool
 }
 
@@ -420,8 +434,8 @@ func (s *c08Seq) step(op c08Op) (bool, error) {
 		}
 		if strings.HasPrefix(rep.Why, "mismatch:") {
 			s.ctx.Res.Disagree(vh.Disagreement{Signature: fmt.Sprintf("C08:%s:kind=%s%s", strings.TrimPrefix(rep.Why, "mismatch:"), kind, c08EOFLikeTag(op, rep)),
-				What:  fmt.Sprintf("op #%d %s on a %s: implementation returned %v, the model allows %s", rep.At, op.K, kind, c08Obs(op), c08AllowedFor(op, rep)),
-				Case:  s.c, Model: map[string]any{"why": rep.Why, "allowed": rep.Allowed}, Impl: c08Obs(op)})
+				What: fmt.Sprintf("op #%d %s on a %s: implementation returned %v, the model allows %s", rep.At, op.K, kind, c08Obs(op), c08AllowedFor(op, rep)),
+				Case: s.c, Model: map[string]any{"why": rep.Why, "allowed": rep.Allowed}, Impl: c08Obs(op)})
 			s.bad = true
 			return false, nil
 		}
@@ -972,6 +986,72 @@ func c08FwdDelay(ctx *vh.Ctx) error {
 	return s.finish(s.tearDown())
 }
 
+// c08ArrMerge: array sources merged with each other — directly, through sibling copies of one array
+// reader, and with a partially read first source — then everything is read to the end.  (Array
+// readers share their backing slice between copies; a merge must not write through it.)
+func c08ArrMerge(ctx *vh.Ctx) error {
+	s := c08NewSeq(ctx, "seq")
+	r := ctx.Rng
+	s.c.Tear = "eof-first"
+	mk := func(tag, n int) c08Op {
+		items := make([]int, n)
+		for j := range items {
+			items[j] = (700+tag)*1000 + j + 1
+		}
+		return c08Op{K: "arr", Items: items}
+	}
+	last := func() int { return s.st.Readers[len(s.st.Readers)-1][0] }
+	do := func(op c08Op) (bool, error) { return s.step(op) }
+	if ok, err := do(mk(0, r.Range(1, 4))); !ok || err != nil {
+		return s.finish(err)
+	}
+	a := last()
+	if r.Chance(40) { // first source partially read
+		if ok, err := do(c08Op{K: "recv", R: a}); !ok || err != nil {
+			return s.finish(err)
+		}
+	}
+	var firsts []int
+	if r.Chance(70) {
+		n := r.Range(2, 3)
+		if ok, err := do(c08Op{K: "copy", R: a, N: n}); !ok || err != nil {
+			return s.finish(err)
+		}
+		for _, rd := range s.st.Readers[len(s.st.Readers)-n:] {
+			firsts = append(firsts, rd[0])
+		}
+	} else {
+		firsts = []int{a}
+		if ok, err := do(mk(9, r.Range(1, 3))); !ok || err != nil { // a neighbouring window that is only read
+			return s.finish(err)
+		}
+	}
+	for i, f := range firsts {
+		if i > 0 && r.Chance(25) {
+			continue // this copy is read on its own
+		}
+		if ok, err := do(mk(i+1, r.Range(1, 3))); !ok || err != nil {
+			return s.finish(err)
+		}
+		rs := []int{f, last()}
+		if r.Chance(30) {
+			if ok, err := do(c08Op{K: "pipe", Cap: r.Intn(3)}); !ok || err != nil {
+				return s.finish(err)
+			}
+			rs = append(rs, last())
+		}
+		if ok, err := do(c08Op{K: "merge", Rs: rs}); !ok || err != nil {
+			return s.finish(err)
+		}
+		if r.Chance(50) { // read a little from this merge before the next one is built
+			if ok, err := do(c08Op{K: "recv", R: last()}); !ok || err != nil {
+				return s.finish(err)
+			}
+		}
+	}
+	return s.finish(s.tearDown())
+}
+
 // ---- concurrent stress: one goroutine per writer and per reader ----
 
 func c08RunConc(ctx *vh.Ctx, replay *c08Case) error {
@@ -1172,8 +1252,8 @@ func c08RunConc(ctx *vh.Ctx, replay *c08Case) error {
 		}
 		bad := ops[rep.At]
 		ctx.Res.Disagree(vh.Disagreement{Signature: fmt.Sprintf("C08:%s:kind=%s%s:concurrent", strings.TrimPrefix(rep.Why, "mismatch:"), c08KindOf(s.st, bad.R), c08EOFLikeTag(bad, rep)),
-			What:  fmt.Sprintf("concurrent run: reader %d received %v where the model allows %s", bad.R, c08Obs(bad), c08Allowed(rep)),
-			Case:  full, Model: map[string]any{"why": rep.Why, "allowed": rep.Allowed, "at": rep.At}, Impl: c08Obs(bad)})
+			What: fmt.Sprintf("concurrent run: reader %d received %v where the model allows %s", bad.R, c08Obs(bad), c08Allowed(rep)),
+			Case: full, Model: map[string]any{"why": rep.Why, "allowed": rep.Allowed, "at": rep.At}, Impl: c08Obs(bad)})
 		return nil
 	}
 	if allEOF {
@@ -1220,6 +1300,12 @@ func runC08(ctx *vh.Ctx) error {
 	nSeq, nConc := ctx.N(1500, 60000), ctx.N(200, 8000)
 	seqBudget := ctx.Budget * 7 / 10
 	for i := 0; i < nSeq && time.Since(ctx.Start) < seqBudget; i++ {
+		if i%12 == 5 {
+			if err := c08ArrMerge(ctx); err != nil {
+				return err
+			}
+			continue
+		}
 		if err := c08RunSeq(ctx); err != nil {
 			return err
 		}
